@@ -544,7 +544,8 @@ def type_correspondence(res, rnd, q):
         if mm == "LEXERR":
             st["lexerr"] += 1
             continue
-        if mm in ("FUEL", "UNSUP") or gm.startswith("PANIC"):
+        if mm in ("FUEL", "UNSUP", "NOT-INPUT-OK") or gm.startswith("PANIC"):
+            # FUEL contradicts parse_type_total; NOT-INPUT-OK: the real lexer produced a token list outside the hypotheses of parse_type_span
             st["fuel"] += 1
             bad.append((x, gm[:200], mm[:200]))
             continue
